@@ -197,3 +197,68 @@ def run(ctx):
     for w in sp.write_nodes:
         ok = all(any(n in dom[w] for n in g.ids_of(t)) for t in transcodes + [enc_call])
         ctx.instance("C02.refuse-not-transmit", "send_msg[encode dominates write]", ok, "write() is reachable without passing the encoder/transcoder", loc(g.nodes[w].ast))
+    timestamp_layout(ctx, repo)
+
+
+
+# ---------------------------------------------------------------------------- timestamp layout (appended rule)
+def timestamp_layout(ctx, repo):
+    """SendingTime(52) / TransactTime(60) are produced by strftime(<literal format>)[:-k]: fold the layout and compare its
+    regular language with the FIX UTCTimestamp lexical space (regex inclusion, both directions)."""
+    from sa.regexlang import Lang, Unsupported, equivalent
+    rule = "C02.timestamp-layout"
+    ctx.rule(rule, "the timestamp generators fold to the FIX UTCTimestamp layout YYYYMMDD-HH:MM:SS.sss (strftime format + slice folded to a regular language, compared by inclusion both ways)")
+    fix = r"[0-9]{8}-[0-9]{2}:[0-9]{2}:[0-9]{2}\.[0-9]{3}"
+    widths = {"%Y": 4, "%m": 2, "%d": 2, "%H": 2, "%M": 2, "%S": 2, "%f": 6}
+    n = 0
+    for q in ("Codec.current_datetime", "FIXNewOrderSingle.current_datetime"):
+        if not repo.has_func(q):
+            continue
+        fn = repo.func(q)
+        rets = [r for r in walk_no_nested(fn) if isinstance(r, ast.Return)]
+        n += 1
+        pat = None
+        if len(rets) == 1:
+            v = rets[0].value
+            cut = 0
+            if isinstance(v, ast.Subscript) and isinstance(v.slice, ast.Slice) and v.slice.lower is None and v.slice.upper is not None:
+                try:
+                    cut = -ast.literal_eval(v.slice.upper)
+                except Exception:
+                    cut = None
+                v = v.value
+            if isinstance(v, ast.Call) and isinstance(v.func, ast.Attribute) and v.func.attr == "strftime" and v.args and isinstance(v.args[0], ast.Constant) and cut is not None \
+                    and "utcnow" in unparse(v.func.value) or (isinstance(v, ast.Call) and "timezone.utc" in unparse(v) and isinstance(v.func, ast.Attribute) and v.func.attr == "strftime"):
+                fmt = v.args[0].value
+                parts = re.split(r"(%[A-Za-z])", fmt)
+                seq = []
+                okf = True
+                for p in parts:
+                    if not p:
+                        continue
+                    if p.startswith("%"):
+                        if p not in widths:
+                            okf = False
+                            break
+                        seq += ["[0-9]"] * widths[p]
+                    else:
+                        seq += [re.escape(ch) for ch in p]
+                if okf and cut is not None and 0 <= cut < len(seq):
+                    seq = seq[:len(seq) - cut] if cut else seq
+                    pat = "".join(seq)
+        ok = False
+        why = "the timestamp is not strftime(<literal format>) of the current UTC time with a constant slice"
+        if pat is not None:
+            try:
+                ok, w = equivalent(Lang(pat), Lang(fix))
+                why = f"the generated layout /{pat}/ differs from the FIX UTCTimestamp layout /{fix}/ (e.g. {w!r})"
+            except Unsupported as exc:
+                raise AnalysisError(f"timestamp layout: {exc}")
+        ctx.instance(rule, f"{q}[UTCTimestamp layout]", ok, why, loc(fn), sample={"rule": rule, "generator": q, "layout": pat, "fix": fix})
+    if n == 0:
+        raise AnalysisError("no timestamp generator found")
+    # the encoder's 52= operand is the generator
+    enc = repo.func("Codec.encode")
+    ops = [unparse(c.args[0].right.elts[1]) for c in walk_no_nested(enc) if isinstance(c, ast.Call) and isinstance(c.func, ast.Attribute) and c.func.attr == "append"
+           and c.args and isinstance(c.args[0], ast.BinOp) and isinstance(c.args[0].right, ast.Tuple) and unparse(c.args[0].right.elts[0]) == "FTag.SendingTime"]
+    ctx.instance(rule, "Codec.encode[52 := current_datetime()]", ops == ["self.current_datetime()"], f"SendingTime(52) is emitted from {ops}", loc(enc))
